@@ -50,12 +50,17 @@ func coordSites() []Site {
 		{Name: "loadSkipHead", File: rb, Func: "shardInfo.totalTargetsHeadSeries", Sel: "if:0:1", Params: st, Ret: "Bool"},
 		{Name: "loadSkipProc", File: rb, Func: "shardInfo.totalTargetsTotalSeries", Sel: "if:0:1", Params: st, Ret: "Bool"},
 		// gcTargets
-		{Name: "gcYoung", File: rb, Func: "Coordinator.gcTargets", Sel: "if:1:7", Params: st, Ret: "Bool"},
-		{Name: "gcOtherOk", File: rb, Func: "Coordinator.gcTargets", Sel: "if:3:7", Params: "(st : St)", Ret: "Bool",
+		{Name: "gcYoung", File: rb, Func: "Coordinator.gcTargets", Sel: "if:1:9", Params: st, Ret: "Bool"},
+		{Name: "gcHeld", File: rb, Func: "Coordinator.gcTargets", Sel: "if:3:9", Params: "(present : Bool)", Ret: "Bool",
+			Leaves: map[string]string{"st != nil": "present"}},
+		{Name: "gcOtherOk", File: rb, Func: "Coordinator.gcTargets", Sel: "if:4:9", Params: "(st : St)", Ret: "Bool",
 			Leaves: map[string]string{"st != nil": "true"}},
-		{Name: "gcRule2", File: rb, Func: "Coordinator.gcTargets", Sel: "if:4:7", Params: "(tar st : St)", Ret: "Bool"},
-		{Name: "gcSame", File: rb, Func: "Coordinator.gcTargets", Sel: "if:5:7", Params: "(tar st : St)", Ret: "Bool"},
-		{Name: "gcLess", File: rb, Func: "Coordinator.gcTargets", Sel: "if:6:7", Params: "(o : Opt) (s other : Rt)", Ret: "Bool"},
+		{Name: "gcRule2", File: rb, Func: "Coordinator.gcTargets", Sel: "if:5:9", Params: "(tar st : St)", Ret: "Bool"},
+		{Name: "gcSame", File: rb, Func: "Coordinator.gcTargets", Sel: "if:6:9", Params: "(tar st : St)", Ret: "Bool"},
+		{Name: "gcLess", File: rb, Func: "Coordinator.gcTargets", Sel: "if:7:9", Params: "(o : Opt) (s other : Rt) (i j : Nat)", Ret: "Bool",
+			Leaves: map[string]string{"j < i": "decide (j < i)"}},
+		{Name: "gcRevert", File: rb, Func: "Coordinator.gcTargets", Sel: "if:8:9", Params: "(held : Bool) (tar : St)", Ret: "Bool"},
+		{Name: "gcRevertTo", File: rb, Func: "Coordinator.gcTargets", Sel: "assign:tar.TargetState:0", Ret: "TState"},
 		// alleviateShards
 		{Name: "allevDisabled", File: rb, Func: "Coordinator.alleviateShards", Sel: "if:0:4", Params: "(o : Opt)", Ret: "Bool"},
 		{Name: "procTrigger", File: rb, Func: "Coordinator.alleviateShards", Sel: "if:1:4", Params: "(swr : Swr) (o : Opt) (s : Rt)", Ret: "Bool"},
